@@ -102,8 +102,9 @@ bool TimerFd::initialize(const std::chrono::nanoseconds first,
 
     d_->timer_fd_event->initialize(d_->timer_fd, tbox::event::FdEvent::kReadEvent, event::Event::Mode::kPersist);
 
-    if (repeat_nanosec == 0)
-        d_->is_stop_after_trigger = true;
+    //! 每次初始化都要重新确定，否则单次定时器重新初始化为周期定时器后，只触发一次就停了
+    //! (decided anew by every initialize(): a one-shot re-initialised as a periodic timer stopped after its first trigger)
+    d_->is_stop_after_trigger = (repeat_nanosec == 0);
 
     d_->is_inited = true;
     return true;
